@@ -323,6 +323,41 @@ def multi_prefix(s, rng):
             break
 
 
+def high_ids(s, rng):
+    """a webentity whose id no longer fits one byte (the caller may choose the id when attaching a prefix), with nested own
+    prefixes (the www variation) and a nested foreign webentity: the per-webentity queries on exactly that one"""
+    if rng.random() > 0.1:
+        return
+    s.notes = getattr(s, "notes", [])
+    s.notes.append("high_ids")
+    W = rng.choice([257, 300, 511, 65537, 1000000])
+    site = b"s:http|h:com|h:big%d|" % W
+    ssite = b"s:https|h:com|h:big%d|" % W
+    s.do(3, [[site + b"p:a|", site + b"h:www|p:b|", site + b"p:a|p:c|", ssite + b"p:z|"], 1])
+    wes = s.webentities()
+    w0 = [w for w, ps in wes.items() if site in ps]
+    if not w0 or W in wes:
+        return
+    own = list(wes[w0[0]])
+    s.do(7, [w0[0], own])
+    for p in own:
+        s.do(8, [p, W])
+    s.do(6, [[site + b"p:a|p:c|"]])                      # a foreign webentity nested below
+    s.do(4, [[[site + b"p:a|", site + b"h:www|p:b|"], [site + b"p:a|p:c|", site + b"p:a|"], [ssite + b"p:z|", site + b"p:a|"],
+              [site + b"p:a|", b"s:http|h:org|h:elsewhere|p:x|"]]])
+    wes = s.webentities()
+    for w in [W] + [x for x in wes if x != W][-2:]:
+        if w not in wes:
+            continue
+        ps = list(wes[w])
+        for op, args in ((24, [w, ps]), (25, [w, ps]), (28, [w, ps]), (29, [w, ps]), (30, [w, ps, 1, 1, 1]), (32, [1, w, ps]),
+                         (32, [0, w, ps]), (27, [w, ps, 3, None]), (23, [ps[0]]), (20, [site + b"p:a|"])):
+            s.do(op, args, clean=True)
+    s.do(34, [1, 0, 0])
+    s.do(34, [1, 0, 1])
+    s.do(36, [])
+
+
 def many_ids(s, rng):
     """webentity ids around the byte boundaries of the header field (255, 256, 257, 511, 512), then a restart"""
     if rng.random() > 0.07 or s.impl.backend != "f":
@@ -452,21 +487,22 @@ reg("C03", ["C03_out", "C03_in", "C03_count"], K.FACET_OPS["C03"], mixkw={"add_l
 reg("C04", ["C04_resolve", "C04_prefmap"], K.FACET_OPS["C04"],
     mixkw={"create_we": 16, "delete_we": 10, "add_prefix": 12, "remove_prefix": 10, "move_prefix": 8})
 reg("C05", ["C05_we_pages", "C05_partition", "C05_exactly_once"], K.FACET_OPS["C05"], mixkw={"create_we": 16, "add_prefix": 10},
-    sweep=perm_sweep(5))
+    sweep=perm_sweep(5), extra=[high_ids])
 reg("C06", ["C06_create", "C06_potential", "C06_rule_install"], K.FACET_OPS["C06"], mixkw={"add_rule": 14, "remove_rule": 4},
     sweep=helper_sweep(["rule"]))
-reg("C07", ["C07_net"], K.FACET_OPS["C07"], depth=2, nq=320, mixkw={"add_links": 30, "batch": 20, "create_we": 14})
-reg("C08", ["C08_pagelinks"], K.FACET_OPS["C08"], mixkw={"add_links": 30, "batch": 20, "create_we": 14})
+reg("C07", ["C07_net"], K.FACET_OPS["C07"], depth=2, nq=320, mixkw={"add_links": 30, "batch": 20, "create_we": 14}, extra=[high_ids])
+reg("C08", ["C08_pagelinks"], K.FACET_OPS["C08"], mixkw={"add_links": 30, "batch": 20, "create_we": 14}, extra=[high_ids])
 reg("C09", ["C09_token_roundtrip", "C09_sorted_pages", "C09_chunks", "C09_stable_chain"], K.FACET_OPS["C09"],
     mixkw={"add_page": 50, "add_pages": 20, "create_we": 14}, sweep=both_sweeps(helper_sweep(["token"]), perm_sweep(6)),
     extra=[deep_tree, multi_prefix])
 reg("C10", ["C10_chunks", "C10_same_links"], K.FACET_OPS["C10"], mixkw={"add_links": 35, "batch": 20, "create_we": 14},
     extra=[deep_tree, multi_prefix])
 reg("C12", ["C12_fresh"], set(), mixkw={"create_we": 16, "delete_we": 10, "add_rule": 10, "reopen": 10}, extra=[many_ids])
-reg("C13", ["C13_parents", "C13_children"], K.FACET_OPS["C13"], mixkw={"create_we": 18, "add_prefix": 12, "move_prefix": 8, "add_rule": 10})
+reg("C13", ["C13_parents", "C13_children"], K.FACET_OPS["C13"], mixkw={"create_we": 18, "add_prefix": 12, "move_prefix": 8, "add_rule": 10},
+    extra=[high_ids])
 reg("C19", ["C19_trie_blocks", "C19_count_links", "C19_readd_no_growth"], K.FACET_OPS["C19"], sweep=both_sweeps(helper_sweep(["chunks"]), long_sweep), weird=0.45,
     mixkw={"add_page": 45, "add_pages": 16})
-reg("C20", ["C20_topk"], K.FACET_OPS["C20"], mixkw={"add_links": 35, "batch": 20, "create_we": 14})
+reg("C20", ["C20_topk"], K.FACET_OPS["C20"], mixkw={"add_links": 35, "batch": 20, "create_we": 14}, extra=[high_ids])
 
 
 # ---- C14: queries never modify the index (dynamic facet next to the call-graph theorem) -------------
